@@ -153,6 +153,34 @@ end SqlglotModel.Schema
 namespace SqlglotModel.Schema
 open SqlglotModel.Ident
 
+/-! ### `_find_cache` and the per-call option overrides -/
+
+/-- the inputs of `MappingSchema.find` -/
+inductive FField where
+  | table | raise | ensure
+deriving DecidableEq, Repr
+
+inductive CacheId where
+  | names | tables | types | finds
+deriving DecidableEq, Repr
+
+/-- the per-call overrides every public method accepts (`dialect=`, `normalize=`) -/
+inductive CallOpt where
+  | dialect | normalize
+deriving DecidableEq, Repr
+
+def nameHas (l : List NField) : CallOpt → Bool
+  | .dialect => l.contains .dialect
+  | .normalize => l.contains .normalize
+
+def tableHas (l : List TField) : CallOpt → Bool
+  | .dialect => l.contains .dialect
+  | .normalize => l.contains .normalize
+
+def typeHas (l : List YField) : CallOpt → Bool
+  | .dialect => l.contains .dialect
+  | .normalize => false
+
 def nameRun (f : CaseFns) (layout : List NField) (m : NameCache) (xs : List NameIn) : NameCache :=
   xs.foldl (fun m x => (nameCall f layout m x).1) m
 
